@@ -407,7 +407,7 @@ class XsdGen:
         n_types = rng.randrange(1, self.max_types + 1)
         # imported schema (other namespace) with a type and a global element
         other = None
-        if rng.random() < 0.3 and tns and not self.simple:
+        if rng.random() < (0.45 if self.hostile else 0.3) and tns and not self.simple:
             other = Schema(f"urn:xsdgen:{salt}:other", efd=rng.random() < 0.7, afd=False, file="other.xsd")
             oct = self.complex_type(ss, other, self.gname("OtherType"), self.depth, [])
             other.ctypes.append(oct)
@@ -482,6 +482,15 @@ class XsdGen:
                     mn = 0 if isinstance(ht, ComplexT) else rng.choice([0, 1])  # (a required reference could recurse for ever)
                     host.content.items.append(ElemDecl(head.name, ht, min=mn, max=rng.choice([1, -1]), ref=True, ns=main.tns, is_global=True))
                     self.feat.add("substitution-group")
+        # the same local type name in both namespaces (legal: the names are qualified): the generator has to keep
+        # the two classes apart (import aliases, numeric suffixes where one module/package holds both)
+        if other is not None and rng.random() < 0.5:
+            twin = rng.choice([c for c in main.ctypes if c.name])
+            variants = [twin.name]
+            if self.hostile:
+                variants += [v for v in (twin.name.lower(), twin.name.upper(), twin.name[:1].swapcase() + twin.name[1:]) if v != twin.name and lx.is_ncname(v)]
+            other.ctypes[0].name = rng.choice(variants)
+            self.feat.add("same-type-name-in-two-namespaces")
         # global elements (roots)
         roots = main.ctypes[-rng.randrange(1, min(3, len(main.ctypes)) + 1):]
         for ct in roots:
